@@ -70,6 +70,7 @@ Qed.
 Lemma nlimbs_unique x k : 0 < x -> B ^ (k - 1) <= x < B ^ k -> nlimbs x = k.
 Proof.
   intros Hx [Hlo Hhi].
+  pose proof B_pos as HB0.
   pose proof (nlimbs_pos x Hx) as Hn1.
   destruct (nlimbs_spec x Hx) as [Hnlo Hnhi].
   assert (Hk : 1 <= k).
@@ -86,14 +87,25 @@ Qed.
 
 (* ---------- truncation to the top k limbs ---------- *)
 
+(* [hide] keeps non-linear facts out of lia's sight *)
+Definition hide_sig : { h : Prop -> Prop | forall P : Prop, h P <-> P }.
+Proof. exists (fun P : Prop => P). intros P. split; exact (fun H => H). Qed.
+Definition hide (P : Prop) : Prop := proj1_sig hide_sig P.
+Lemma hide_intro (P : Prop) : P -> hide P.
+Proof. unfold hide. apply (proj2_sig hide_sig P). Qed.
+Lemma hide_elim (P : Prop) : hide P -> P.
+Proof. unfold hide. apply (proj2_sig hide_sig P). Qed.
+Global Opaque hide.
+
 Lemma top_limbs_spec M n k M' n' :
   1 <= k -> 1 <= n -> B ^ (n - 1) <= M < B ^ n ->
   top_limbs M n k = (M', n') ->
   1 <= n' /\ n' <= k /\ n' <= n /\ B ^ (n' - 1) <= M' < B ^ n'
-  /\ M' * B ^ (n - n') <= M /\ (M - M' * B ^ (n - n')) * B ^ (k - 1) < M
+  /\ hide (M' * B ^ (n - n') <= M /\ (M - M' * B ^ (n - n')) * B ^ (k - 1) < M)
   /\ (n <= k -> M' = M /\ n' = n).
 Proof.
   intros Hk Hn [Hlo Hhi] Htop. unfold top_limbs in Htop.
+  pose proof B_pos as HB0.
   destruct (Z.ltb_spec k n) as [Hlt|Hge].
   - injection Htop as HM' Hn'. subst n'.
     assert (HW : 0 < B ^ (n - k)) by (apply Bpow_pos; lia).
@@ -113,11 +125,13 @@ Proof.
     set (r := M mod W) in *.
     assert (Hrk : r * K < W * K) by (apply Z.mul_lt_mono_pos_r; lia).
     assert (HWK : W * K <= W * M') by (apply Z.mul_le_mono_nonneg_l; lia).
-    repeat split; try lia.
+    split; [lia|]. split; [lia|]. split; [lia|]. split; [lia|].
+    split; [apply hide_intro; split; lia|]. intros Hnk; lia.
   - injection Htop as HM' Hn'. subst M' n'.
     replace (n - n) with 0 by lia. change (B ^ 0) with 1.
     assert (HK : 0 < B ^ (n - 1)) by (apply Bpow_pos; lia).
-    repeat split; try lia.
+    split; [lia|]. split; [lia|]. split; [lia|]. split; [lia|].
+    split; [apply hide_intro; split; lia|]. intros Hnk; lia.
 Qed.
 
 (* ---------- the arithmetic core of the error bound ---------- *)
@@ -164,6 +178,7 @@ Lemma fnum_scaled f k : 0 <= k -> 0 <= k + (fexp f - fn f) ->
   fnum f * B ^ k = sg (fneg f) * fM f * B ^ (k + (fexp f - fn f)) * fden f.
 Proof.
   intros Hk Hk2. unfold fnum, fden, sg. cbv zeta.
+  pose proof B_pos as HB0.
   destruct (Z.leb_spec 0 (fexp f - fn f)) as [H|H].
   - rewrite Bpow_add by lia. destruct (fneg f); ring.
   - replace (B ^ k) with (B ^ (k + (fexp f - fn f)) * B ^ (fn f - fexp f)).
@@ -174,6 +189,7 @@ Qed.
 Lemma fnum_nonzero f : 0 < fM f -> fnum f <> 0.
 Proof.
   intros HM. unfold fnum. cbv zeta.
+  pose proof B_pos as HB0.
   destruct (Z.leb_spec 0 (fexp f - fn f)) as [H|H].
   - pose proof (Bpow_pos (fexp f - fn f) H) as HP.
     destruct (fneg f); apply Z.neq_mul_0; split; lia.
@@ -205,6 +221,7 @@ Lemma value_reduce u v r D :
     /\ fnum u * fnum v * fden r * W = s * C * (fM u * fM v).
 Proof.
   intros Hneg HD Hexp.
+  pose proof B_pos as HB0.
   set (ku := Z.abs (fexp u - fn u)). set (kv := Z.abs (fexp v - fn v)).
   set (kr := Z.abs (fexp r - fn r)).
   assert (Hku : 0 <= ku) by lia. assert (Hkv : 0 <= kv) by lia. assert (Hkr : 0 <= kr) by lia.
@@ -252,6 +269,47 @@ Qed.
 
 (* ---------- mpf_mul on non-zero operands ---------- *)
 
+Lemma drop_B t K P : 0 <= t -> 0 < K -> t * (K * B) < P -> t * K < P.
+Proof.
+  intros Ht HK H. pose proof B_ge2 as HB2.
+  assert (HtK : 0 <= t * K) by (apply Z.mul_nonneg_nonneg; lia).
+  assert (HtKB : t * K * 1 <= t * K * B) by (apply Z.mul_le_mono_nonneg_l; lia).
+  replace (t * (K * B)) with (t * K * B) in H by ring.
+  set (x := t * K) in *. set (y := x * B) in *. lia.
+Qed.
+
+Lemma err_assemble Mu Mv um vm pm Fu Fv Fp K Q :
+  0 < um -> 0 < vm -> 0 < pm -> 0 < Fu -> 0 < Fv -> 0 < Fp -> 0 < Q -> Q * 4 = K ->
+  um * Fu <= Mu -> (Mu - um * Fu) * K < Mu ->
+  vm * Fv <= Mv -> (Mv - vm * Fv) * K < Mv ->
+  pm * Fp <= um * vm -> (um * vm - pm * Fp) * (K * B) < um * vm ->
+  pm * (Fu * Fv * Fp) <= Mu * Mv /\ (Mu * Mv - pm * (Fu * Fv * Fp)) * Q < Mu * Mv.
+Proof.
+  intros Hum Hvm Hpm HFu HFv HFp HQ HK Hule Huerr Hvle Hverr Hple Hperr.
+  assert (HK0 : 0 < K) by (clear - HQ HK; lia).
+  assert (Ht0 : 0 <= um * vm - pm * Fp) by (clear - Hple; lia).
+  pose proof (drop_B _ _ _ Ht0 HK0 Hperr) as Ht3.
+  assert (HF : 0 < Fu * Fv) by (apply Z.mul_pos_pos; assumption).
+  assert (Hab : (um * Fu) * (vm * Fv) = (um * vm) * (Fu * Fv)) by ring.
+  assert (Hc3 : ((um * Fu) * (vm * Fv) - pm * (Fu * Fv * Fp)) * K < (um * Fu) * (vm * Fv)).
+  { rewrite Hab.
+    replace ((um * vm * (Fu * Fv) - pm * (Fu * Fv * Fp)) * K)
+      with ((um * vm - pm * Fp) * K * (Fu * Fv)) by ring.
+    apply Z.mul_lt_mono_pos_r; assumption. }
+  assert (Hc0 : 0 <= pm * (Fu * Fv * Fp) <= (um * Fu) * (vm * Fv)).
+  { rewrite Hab. split.
+    - apply Z.mul_nonneg_nonneg; [apply Z.lt_le_incl; exact Hpm|].
+      apply Z.lt_le_incl. apply Z.mul_pos_pos; [exact HF | exact HFp].
+    - replace (pm * (Fu * Fv * Fp)) with ((pm * Fp) * (Fu * Fv)) by ring.
+      apply Z.mul_le_mono_nonneg_r; [apply Z.lt_le_incl; exact HF | exact Hple]. }
+  assert (Ha0 : 0 < um * Fu <= Mu).
+  { split; [apply Z.mul_pos_pos; assumption | exact Hule]. }
+  assert (Hb0 : 0 < vm * Fv <= Mv).
+  { split; [apply Z.mul_pos_pos; assumption | exact Hvle]. }
+  exact (err_core Mu Mv (um * Fu) (vm * Fv) (pm * (Fu * Fv * Fp)) K Q
+           Ha0 Hb0 Hc0 HQ HK Huerr Hverr Hc3).
+Qed.
+
 Lemma mpf_mul_core prec u v :
   2 <= prec ->
   0 < fM u -> fn u = nlimbs (fM u) -> 0 < fM v -> fn v = nlimbs (fM v) ->
@@ -265,47 +323,50 @@ Lemma mpf_mul_core prec u v :
         pm * B ^ (fn u + fn v - adj - pn) = fM u * fM v).
 Proof.
   intros Hp HMu Hnu HMv Hnv.
+  pose proof B_pos as HB0.
   pose proof (nlimbs_spec (fM u) HMu) as HuB. rewrite <- Hnu in HuB.
   pose proof (nlimbs_spec (fM v) HMv) as HvB. rewrite <- Hnv in HvB.
   pose proof (nlimbs_pos (fM u) HMu) as Hnu1. rewrite <- Hnu in Hnu1.
   pose proof (nlimbs_pos (fM v) HMv) as Hnv1. rewrite <- Hnv in Hnv1.
+  assert (Hp1 : 1 <= prec) by lia.
+  assert (Hp2 : 1 <= prec + 1) by lia.
   unfold mpf_mul.
   destruct (top_limbs (fM u) (fn u) prec) as [um un] eqn:Eu.
   destruct (top_limbs (fM v) (fn v) prec) as [vm vn] eqn:Ev.
-  assert (Hp1 : 1 <= prec) by lia.
   destruct (top_limbs_spec _ _ _ _ _ Hp1 Hnu1 HuB Eu)
-    as (Hun1 & Hunk & Hunn & [Humlo Humhi] & Hule & Huerr & Huex).
+    as (Hun1 & Hunk & Hunn & [Humlo Humhi] & HuH & Huex).
   destruct (top_limbs_spec _ _ _ _ _ Hp1 Hnv1 HvB Ev)
-    as (Hvn1 & Hvnk & Hvnn & [Hvmlo Hvmhi] & Hvle & Hverr & Hvex).
+    as (Hvn1 & Hvnk & Hvnn & [Hvmlo Hvmhi] & HvH & Hvex).
   destruct (Z.eqb_spec un 0) as [Hc|_]; [lia|].
   destruct (Z.eqb_spec vn 0) as [Hc|_]; [lia|].
   cbn [orb].
-  set (P := um * vm).
-  set (adj := if P <? B ^ (un + vn - 1) then 1 else 0).
   assert (Pum : 0 < B ^ (un - 1)) by (apply Bpow_pos; lia).
   assert (Pvm : 0 < B ^ (vn - 1)) by (apply Bpow_pos; lia).
-  assert (HPlo : B ^ (un + vn - 2) <= P).
+  assert (Hum0 : 0 < um) by lia.
+  assert (Hvm0 : 0 < vm) by lia.
+  assert (HPlo : B ^ (un + vn - 2) <= um * vm).
   { replace (un + vn - 2) with ((un - 1) + (vn - 1)) by lia. rewrite Bpow_add by lia.
-    unfold P. apply Z.mul_le_mono_nonneg; lia. }
-  assert (HPhi : P < B ^ (un + vn)).
-  { rewrite Bpow_add by lia. unfold P. apply Z.mul_lt_mono_nonneg; lia. }
+    apply Z.mul_le_mono_nonneg; lia. }
+  assert (HPhi : um * vm < B ^ (un + vn)).
+  { rewrite Bpow_add by lia. apply Z.mul_lt_mono_nonneg; lia. }
+  set (P := um * vm) in *.
+  set (adj := if P <? B ^ (un + vn - 1) then 1 else 0).
   assert (Hadj : (adj = 0 \/ adj = 1) /\ B ^ (un + vn - adj - 1) <= P < B ^ (un + vn - adj)).
   { unfold adj. destruct (Z.ltb_spec P (B ^ (un + vn - 1))) as [Hlt|Hge].
     - split; [auto|]. replace (un + vn - 1 - 1) with (un + vn - 2) by lia. lia.
     - split; [auto|]. replace (un + vn - 0) with (un + vn) by lia.
-      replace (un + vn - 1) with (un + vn - 0 - 1) in Hge by lia. lia. }
+      lia. }
   destruct Hadj as [Hadj01 HPB].
-  clearbody adj.
   destruct (top_limbs P (un + vn - adj) (prec + 1)) as [pm pn] eqn:Ep.
-  assert (Hp2 : 1 <= prec + 1) by lia.
+  exists pm, pn, adj.
+  split; [reflexivity|].
+  assert (HPdef : hide (P = um * vm)) by (apply hide_intro; reflexivity).
+  clearbody adj. clearbody P.
   assert (Hrs1 : 1 <= un + vn - adj) by lia.
   destruct (top_limbs_spec _ _ _ _ _ Hp2 Hrs1 HPB Ep)
-    as (Hpn1 & Hpnk & Hpnn & [Hpmlo Hpmhi] & Hple & Hperr & Hpex).
-  replace (prec + 1 - 1) with prec in Hperr by lia.
-  exists pm, pn, adj.
+    as (Hpn1 & Hpnk & Hpnn & [Hpmlo Hpmhi] & HpH & Hpex).
   assert (Ppm : 0 < B ^ (pn - 1)) by (apply Bpow_pos; lia).
   assert (Hpm0 : 0 < pm) by lia.
-  split; [reflexivity|].
   split; [exact Hpm0|].
   split; [symmetry; apply nlimbs_unique; [exact Hpm0 | split; assumption]|].
   split; [exact Hpnk|].
@@ -317,57 +378,41 @@ Proof.
   assert (Hdu : 0 <= du) by (unfold du; lia).
   assert (Hdv : 0 <= dv) by (unfold dv; lia).
   assert (Hdp : 0 <= dp) by (unfold dp; lia).
-  rewrite !Bpow_add by lia.
+  assert (Hduv : 0 <= du + dv) by lia.
+  rewrite (Bpow_add (du + dv) dp Hduv Hdp), (Bpow_add du dv Hdu Hdv).
   pose proof (Bpow_pos du Hdu) as PFu. pose proof (Bpow_pos dv Hdv) as PFv.
   pose proof (Bpow_pos dp Hdp) as PFp.
-  set (Fu := B ^ du) in *. set (Fv := B ^ dv) in *. set (Fp := B ^ dp) in *.
   pose proof (Q4 prec Hp) as HQ4.
   assert (HQpos : 0 < 2 ^ (bits_of_prec prec - 2)).
   { apply Z.pow_pos_nonneg; [lia|]. unfold bits_of_prec. lia. }
-  set (Q := 2 ^ (bits_of_prec prec - 2)) in *.
-  assert (PK : 0 < B ^ (prec - 1)) by (apply Bpow_pos; lia).
-  assert (EKB : B ^ prec = B ^ (prec - 1) * B).
-  { replace prec with ((prec - 1) + 1) at 1 by lia. rewrite Bpow_add by lia.
-    change (B ^ 1) with (Z.pow_pos B 1). unfold Z.pow_pos. simpl. ring. }
-  set (K := B ^ (prec - 1)) in *.
-  assert (HF : 0 < Fu * Fv) by (apply Z.mul_pos_pos; assumption).
-  assert (Hab : (um * Fu) * (vm * Fv) = P * (Fu * Fv)) by (unfold P; ring).
-  (* third error term *)
-  assert (Ht3 : (P - pm * Fp) * K < P).
-  { pose proof B_ge2 as HB2. rewrite EKB in Hperr.
-    set (t := P - pm * Fp) in *.
-    assert (Ht0 : 0 <= t) by (unfold t; lia).
-    assert (HtK : 0 <= t * K) by (apply Z.mul_nonneg_nonneg; lia).
-    assert (HtKB : t * K * 1 <= t * K * B) by (apply Z.mul_le_mono_nonneg_l; lia).
-    replace (t * (K * B)) with (t * K * B) in Hperr by ring. lia. }
-  assert (Hc3 : ((um * Fu) * (vm * Fv) - pm * (Fu * Fv * Fp)) * K < (um * Fu) * (vm * Fv)).
-  { rewrite Hab.
-    replace ((P * (Fu * Fv) - pm * (Fu * Fv * Fp)) * K) with ((P - pm * Fp) * K * (Fu * Fv)) by ring.
-    apply Z.mul_lt_mono_pos_r; assumption. }
-  assert (Hc0 : 0 <= pm * (Fu * Fv * Fp) <= (um * Fu) * (vm * Fv)).
-  { rewrite Hab. split.
-    - apply Z.mul_nonneg_nonneg; [lia|]. apply Z.mul_nonneg_nonneg; lia.
-    - replace (pm * (Fu * Fv * Fp)) with ((pm * Fp) * (Fu * Fv)) by ring.
-      apply Z.mul_le_mono_nonneg_r; lia. }
-  assert (Ha0 : 0 < um * Fu <= fM u).
-  { split; [apply Z.mul_pos_pos; lia | exact Hule]. }
-  assert (Hb0 : 0 < vm * Fv <= fM v).
-  { split; [apply Z.mul_pos_pos; lia | exact Hvle]. }
-  destruct (err_core (fM u) (fM v) (um * Fu) (vm * Fv) (pm * (Fu * Fv * Fp)) K Q
-              Ha0 Hb0 Hc0 HQpos HQ4 Huerr Hverr Hc3) as [Hle Herr].
+  assert (EKB : B ^ (prec + 1 - 1) = B ^ (prec - 1) * B).
+  { replace (prec + 1 - 1) with ((prec - 1) + 1) by lia. rewrite Bpow_add by lia.
+    rewrite Z.pow_1_r. reflexivity. }
+  assert (Hres :
+    pm * (B ^ du * B ^ dv * B ^ dp) <= fM u * fM v
+    /\ (fM u * fM v - pm * (B ^ du * B ^ dv * B ^ dp)) * 2 ^ (bits_of_prec prec - 2) < fM u * fM v).
+  { apply hide_elim in HuH. apply hide_elim in HvH. apply hide_elim in HpH.
+    apply hide_elim in HPdef.
+    destruct HuH as [Hule Huerr]. destruct HvH as [Hvle Hverr]. destruct HpH as [Hple Hperr].
+    subst P. rewrite EKB in Hperr.
+    exact (err_assemble _ _ _ _ _ _ _ _ _ _ Hum0 Hvm0 Hpm0 PFu PFv PFp HQpos HQ4
+             Hule Huerr Hvle Hverr Hple Hperr). }
+  destruct Hres as [Hle Herr].
   split; [exact Hle|].
   split; [exact Herr|].
+  clear Hle Herr.
   intros Hfu Hfv Hprod.
   destruct (Huex Hfu) as [Hum Hun]. destruct (Hvex Hfv) as [Hvm Hvn].
-  assert (HPe : P = fM u * fM v) by (unfold P; rewrite Hum, Hvm; reflexivity).
-  assert (HPpos : 0 < P) by lia.
+  pose proof (hide_elim _ HPdef) as HPe. rewrite Hum, Hvm in HPe.
+  assert (HPpos : 0 < P) by (rewrite HPe; apply Z.mul_pos_pos; assumption).
   pose proof (nlimbs_unique P (un + vn - adj) HPpos HPB) as Hrs.
   rewrite <- HPe in Hprod.
-  destruct (Hpex ltac:(lia)) as [Hpm Hpn].
+  assert (Hrk : un + vn - adj <= prec + 1) by lia.
+  destruct (Hpex Hrk) as [Hpm Hpn].
   assert (Zu : du = 0) by (unfold du; lia).
   assert (Zv : dv = 0) by (unfold dv; lia).
   assert (Zp : dp = 0) by (unfold dp; lia).
-  unfold Fu, Fv, Fp. rewrite Zu, Zv, Zp. change (B ^ 0) with 1.
+  rewrite Zu, Zv, Zp. change (B ^ 0) with 1.
   rewrite Hpm, HPe. ring.
 Qed.
 
@@ -414,6 +459,7 @@ Lemma mpf_mul_accurate : forall prec u v pu pv,
         fnum (mpf_mul prec u v) * (fden u * fden v) = fnum u * fnum v * fden (mpf_mul prec u v)).
 Proof.
   intros prec u v pu pv Hp (Hu0 & Hu1 & _) (Hv0 & Hv1 & _).
+  pose proof B_pos as HB0.
   destruct (Z.eq_dec (fM u) 0) as [Zu|NZu].
   { destruct (Hu0 Zu) as [Hn _].
     apply mpf_mul_zero_case; [exact Hp | apply mpf_mul_zero_l; [lia | exact Hn] |].
@@ -447,15 +493,15 @@ Proof.
       destruct (Z.eqb_spec (fnum u * fnum v) 0) as [Hc|_]; [contradiction|].
       apply Z.ltb_lt.
       apply (acc_from_reduce _ _ _ W C s (pm * B ^ D - fM u * fM v) (fM u * fM v));
-        try assumption; [lia|].
-      replace (Z.abs (pm * B ^ D - fM u * fM v)) with (fM u * fM v - pm * B ^ D) by lia.
+        try assumption; [apply Z.lt_le_incl; exact HE|].
+      replace (Z.abs (pm * B ^ D - fM u * fM v)) with (fM u * fM v - pm * B ^ D) by (clear - Hle; lia).
       exact Herr.
     + intros Hfu Hfv Hprod.
       pose proof (Hex Hfu Hfv Hprod) as Heq.
       rewrite Heq in R1.
       assert (HX0 : (fnum r * (fden u * fden v) - fnum u * fnum v * fden r) * W = 0).
       { rewrite R1. ring. }
-      apply Z.mul_eq_0 in HX0. destruct HX0 as [HX0|HX0]; lia.
+      apply Z.mul_eq_0 in HX0. destruct HX0 as [HX0|HX0]; [clear - HX0; lia | clear - HX0 HW; lia].
 Qed.
 
 (* ---------- the certificate ---------- *)
